@@ -82,11 +82,20 @@ def find_scans(fn):
             assigned = [unparse(t) for s in arm.body if isinstance(s, ast.Assign) for t in s.targets]
             f = guards.norm(arm.test, unparse)
             hit = None
+            not_updated = False
             for a in guards.atoms(f):
                 if a[0] == "lt":
                     for b in assigned:
                         if b in infs and b in (a[1], a[2]):
                             hit = (a, b)
+            if hit is None:
+                # a comparison with a running best that the arm does not update (the scan then keeps the LAST candidate below +inf, not the minimum)
+                for a in guards.atoms(f):
+                    if a[0] == "lt":
+                        for b in infs:
+                            if b in (a[1], a[2]) and infs[b].lineno < loop.lineno and any(isinstance(s, ast.Assign) for s in arm.body):
+                                hit = (a, b)
+                                not_updated = True
             if hit is None:
                 continue
             a, b = hit
@@ -103,6 +112,7 @@ def find_scans(fn):
             else:
                 key, flipped, strict = a[2], pol, not pol
             sc = Scan(fn, loop, b, arm, a, key, flipped, strict)
+            sc.not_updated = not_updated
             sc.defs = defs
             sc.init = infs[b]
             # stored value
@@ -128,7 +138,9 @@ def judge(sc):
     if sc.flipped:
         out.append(("scan-direction", "the running best `%s` is replaced when the key is LARGER: this selects a maximum, not the minimum" % sc.best, sc.arm))
     stored = _subst(getattr(sc, "stored", "?"), sc.defs)
-    if stored != key_c and getattr(sc, "stored", None) != sc.key:
+    if getattr(sc, "not_updated", False):
+        out.append(("best-not-updated", "the running best `%s` is compared but never updated in the arm: the scan does not keep the minimum" % sc.best, sc.arm))
+    elif stored != key_c and getattr(sc, "stored", None) != sc.key:
         out.append(("stored-not-compared", "`%s` is compared with the key `%s` but `%s` is stored" % (sc.best, sc.key, getattr(sc, "stored", "?")), sc.arm))
     # initialisation precedes the loop
     if not (sc.init.lineno < sc.loop.lineno):
